@@ -173,6 +173,10 @@ func (o *Obs) headBranch() (string, bool) {
 	if n == "" || strings.Contains(n, "/") {
 		return "", false
 	}
+	// the format is one line: `ref: refs/heads/` followed by at least one character of that line
+	if n[0] == '\n' {
+		return "", false
+	}
 	return n, true
 }
 
